@@ -25,7 +25,8 @@ NEG = [('replace_verbose_q', ['Inv_X03_Outcome']),
        ('mut_half_lane_q', ['Inv_X03_IgnoreWhole']),
        ('mut_partial_return_q', ['Inv_X03_Terminates']),
        ('mut_prepend_q', ['Inv_X03_SlotOrder', 'Inv_X03_Pairing']),
-       ('impl_q', None)]
+       ('impl_q', ['Inv_X03_LibraryName']),
+       ('impl_asfound_q', ['Inv_X03_Outcome'])]
 # generator cfg -> how many scenarios of its exhaustive set are replayed (quick, thorough); None = all
 GEN = [('gen_pair', 2000, None), ('gen_pairsfx', 0, 12000), ('gen_name', 2000, 25000), ('gen_nameverbose', 200, None),
        ('gen_lane', 1200, 12000), ('gen_lane4', 0, 12000), ('gen_merge', 800, None)]
